@@ -71,9 +71,9 @@ _add(
 _add(
     "C19",
     rule="one evaluation = one generator seed x one encoder configuration (exponential-interval / Bernoulli / "
-         "Poisson-interval / inhomogeneous Bernoulli; functional form or Module; offline or online; dt in {1,0.5}; "
-         "refractory None, dt, 2dt, 5dt; compensation on/off; max frequency 5..900 Hz inside the documented "
-         "frequency*refrac<1000 domain; 1-300 steps; intensities in [0,1] with exact zeros and ones), run twice from the "
+         "Poisson-interval / inhomogeneous Bernoulli; functional form or Module; offline or online; dt in {0.1,0.2,0.3,0.5,1,2,4}; "
+         "refractory None or 1-9 steps written as k*dt; compensation on/off; max frequency 5 Hz up to 0.9 of the documented "
+         "frequency*refrac<1000 limit, and for the Bernoulli encoders also above one expected spike per step (clamped); 1-300 steps; intensities in [0,1] with exact zeros and ones), run twice from the "
          "same generator state. Non-trivial: the refractory encoder, or any case with a zero-intensity element; "
          "distinct = (encoder, online, module, dt, refractory, compensation, steps class, zero pattern, rank) abstractions.",
     required=["shape_dtype_checks", "reproducibility_checks", "zero_intensity_elements", "refractory_gaps_checked"],
@@ -92,8 +92,8 @@ _add(
          "both) and a StateHook subclass (pre or post) attached to an nn.Module / inferno.Module probe that logs the "
          "order of events; every operation is one evaluation judged by a firing state machine; (b) Clamping and "
          "Normalization hooks on a plain tensor attribute, a buffer, connection.weight and updater 'parent.weight' with "
-         "random tensors, bounds, orders (1, 2, 0.5, 3, inf), scales (negative too) and dims; post-conditions are "
-         "evaluated inside every firing by a class-level wrapper. Non-trivial: everything except bare mode switches; "
+         "random tensors, bounds (zero and negative upper bounds too), orders (1, 2, 0.5, 3, inf), scales (negative too) and dims; "
+         "post-conditions are evaluated against the CONFIGURED values inside every firing by a class-level wrapper. Non-trivial: everything except bare mode switches; "
          "distinct = (hook kind, operation, registered, alive, armed, position, probe type) / (hook, target, parameters).",
     required=["module_calls_checked", "manual_calls_checked", "deregistrations_checked", "collections_checked",
               "postcondition_evaluations.clamp", "postcondition_evaluations.norm"],
@@ -308,14 +308,15 @@ _add(
 
 _add(
     "C11",
-    rule="components built with batch size B in 2..5 next to B twins of batch size 1 with identical parameters: the 8 "
+    rule="components built with batch size B in 2..5 (or built at another size, optionally used, and brought to B through the "
+         "batchsz setter) next to B twins of batch size 1 with identical parameters: the 8 "
          "neuron classes (adaptation frozen, refrac_lock on/off), 4 synapses (delays 0/2/3 steps, in-place or not, incl. "
          "full history tensors and delayed reads), 4 connections x 4 synapses with and without delays, Serial / Biclique / "
          "RecurrentSerial layers, and the 11 trainers with batch_reduction=sum; per-sample inputs are deliberately very "
          "different (sample 0 silent, sample 1 saturated, the rest random); 5-25 steps each. One evaluation = one step in "
          "which every sample of every observable is compared with its single-sample twin (or the sum of per-sample "
          "trainer steps); distinct = (component kind, class, batch size, delay, ...).",
-    required=["steps_checked", "sample_comparisons", "trainer_steps_checked"],
+    required=["steps_checked", "sample_comparisons", "trainer_steps_checked", "resized_components"],
     floor={"quick": 60, "thorough": 200},
     text="Held on every run explored: sample b of every output, state tensor and history tensor of a batched real "
          "component equals what an identically parameterised batch-size-1 twin produces for that sample alone, at every "
@@ -330,11 +331,12 @@ _add(
          "weight and delay variants; real weight/delay updates every step) + optional stand-alone reducer (trace, event, "
          "EMA, cumulative average, pass-through; duration 0 or 3 steps) + optional MaxRateClassifier, batch 1-2, run "
          "length T in 8..14; for EVERY k in 0..T: run k steps, torch.save/torch.load the state dicts, load strictly into "
-         "a third instance that was warmed by one step (fresh) or three steps on unrelated data (prerun), continue to T "
+         "a third instance that was warmed by one step (fresh) or three steps on unrelated data (prerun; or clone: its used "
+         "classifier replaced by a copy.deepcopy of itself), continue to T "
          "and compare every output and the complete final state (all state-dict entries incl. extras and non-persistent "
          "buffers) exactly. One evaluation = one checkpoint position; distinct = (layer, trainer, reducer, classifier, "
          "target kind, position class, delay, in-place).",
-    required=["checkpoint_positions_checked", "restored_steps_compared", "final_states_compared"],
+    required=["cloned_targets", "checkpoint_positions_checked", "restored_steps_compared", "final_states_compared"],
     floor={"quick": 20, "thorough": 120},
     shards={"quick": 8, "thorough": 32},
     exhaustive={"quick": ["every checkpoint position k in 0..T of each generated run"], "thorough": ["every checkpoint position k in 0..T of each generated run"]},
